@@ -12,8 +12,15 @@ from pv import core, sem
 from pv.export import Unsupported
 
 HEAD = '''module mm
+  type :: pt
+    real :: x
+    real, dimension(0:4) :: v
+    integer :: k
+  end type pt
 contains
-subroutine s(a, b, c, ia, n, m, t, u, kout, flag)
+subroutine s(a, b, c, ia, n, m, t, u, kout, flag, p, q)
+  type(pt), intent(inout) :: p
+  type(pt), intent(inout) :: q
   integer, intent(inout) :: n
   integer, intent(inout) :: m
   integer, intent(inout) :: kout
@@ -60,7 +67,7 @@ end subroutine noop
 end module mm
 '''
 DOM = [("n", [1, 2, 3]), ("m", [1, 2]), ("kout", [2]), ("t", [[1, 2]]), ("u", [[3, 1]]),
-       ("flag", [True, False])]
+       ("flag", [True, False]), ("p%x", [[1, 2]]), ("q%x", [[5, 2]]), ("p%k", [1]), ("q%k", [2])]
 FILLS = [1, 2]
 
 BODIES = [
@@ -83,6 +90,9 @@ BODIES = [
      "u = dot_product(a(1:3), b(1:3))", "t = real(n) + real(int(u))", "a(n) = merge(t, u, flag)"],
     ["do i = 1, n", "  if (b(i) > 20.0) then", "    x = b(i)", "  else", "    a(i) = 0.0", "  end if",
      "  t = t + x", "end do"],
+    ["p%x = q%x + a(n)", "p%v(n) = q%v(m) * 2.0", "q%k = n", "a(q%k) = p%v(1)", "p%v(q%k) = p%v(q%k) + 1.0",
+     "do i = 0, 4", "  q%v(i) = p%v(i) + p%x", "end do", "if (p%x > q%x) p%k = q%k", "call incr(p%x)",
+     "call setout(q%v(n), p%k)", "p%v(:) = q%v(:) + t", "t = sum(p%v) + q%x"],
 ]
 
 
